@@ -246,7 +246,7 @@ def call(ex, node, name, st):
         v = A(0)
         if isinstance(v, TupV):
             return ("sset", tuple(v.items))  # set(<fixed-length tuple>): its members, statically known
-        raise E.Unsupported(f"set() of a symbolic sequence line {node.lineno}")
+        # (a symbolic sequence falls through to the models below, e.g. len(set(seq)) == 1)
     if name == "set" and nargs == 0:
         return ("sset", ())  # an empty set that is only ever extended with .add(x) and tested with `in`: a finite list
     if name in ("partition_all", "toolz.partition_all", "tlz.partition_all") and nargs == 2:
